@@ -80,7 +80,7 @@ def rand_session(rng, s=1, steps=12, logins=LOGINS, allow_end=True):
                 k = next(i for i, y in enumerate(x) if y[0] == "dconnect")
                 extra = rng.choice([["send", s, "CWD " + rng.choice(PATH_ARGS)], ["send", s, "CDUP"], ["send", s, "PWD"],
                                     ["send", s, "REST 2"], ["send", s, "RNFR " + rng.choice(PATH_ARGS)], ["send", s, "TYPE A"],
-                                    ["send", s, "USER " + rng.choice(["u1", "u2", "anonymous"])]])
+                                    ["send", s, "USER " + rng.choice(["u1", "u2", "anonymous"] if logins is LOGINS else sorted({u for u, _ in logins}))]])
                 x = x[:k] + [extra] + x[k:]
             if rng.random() < 0.25:
                 # abort somewhere inside
@@ -212,11 +212,13 @@ def midtransfer_family():
 
 
 def chaos(rng, ns=3):
-    """Several general sessions at once (same and different accounts, the same files), interleaved by the seeded scheduler with
-    backend calls held at random; sessions may be cut (closed, reset) anywhere, the server may be closed at the end."""
+    """Several general sessions at once, each under its own account (its own subtree: what a request held in a backend call is
+    told about a path another session changes meanwhile is outside what FtpCore predicts), interleaved by the seeded scheduler
+    with backend calls held at random; sessions may be cut (closed, reset) anywhere."""
+    own = {1: [("u1", "pw1"), ("u1", "bad"), ("u1", None)], 2: [("u2", None)], 3: [("anonymous", None), ("nobody", None)]}
     scr = {}
     for s in range(1, ns + 1):
-        sc = rand_session(rng, s, steps=rng.choice([4, 7, 10]))
+        sc = rand_session(rng, s, steps=rng.choice([4, 7, 10]), logins=own[s])
         # (no clock steps inside concurrent scripts: ticks are added between scheduler rounds instead)
         sc = [x for x in sc if x[0] != "tick"]
         if rng.random() < 0.3:
